@@ -1491,7 +1491,8 @@ def _oracle(case, obs):
         if fortran:
             # no hook events on this engine: the statuses stamped tell how far it got
             reached = [q for q in want if q < q0 and q in st_changed]
-            stopped_early = len(reached) < len([q for q in want if q < q0])
+            stopped_early = len(reached) < len([q for q in want if q < q0]) or (bool(reached) and (
+                out[1] == 'NonConvergenceError' or (out[1] == 'SolutionError' and obs['status'][reached[-1]] == 'E')))
         else:
             evented = []
             for e in obs['events']:
